@@ -71,7 +71,7 @@ def main():
             fcst = np.cumsum(fcst, axis=axis)
             obs = np.cumsum(obs, axis=axis)
 
-    elif args.w > 1:
+    elif args.w >= 1:
         # if args.w % 2 == 0:
         #     verif.util.error("Window length has to be an odd number")
 
